@@ -430,7 +430,18 @@ def run(ctx):
             r = p.returns()
             if r is None or p.end != "exit" or r.get("e") is None:
                 continue
-            lits = [literal(a[2], a[4], a[5]) for a in p.atoms if a[0] == "cmp" and a[2] in ("==", "!=")]
+            # (a bool local that holds the outcome of a comparison — `const bool same = a.x == b.x; if (!same) return false;`, or the result of
+            # an inlined helper — stands for that comparison)
+            patoms = list(p.atoms)
+            for a in p.atoms:
+                if a[0] == "truth" and isinstance(a[3], dict):
+                    x0 = strip_all_casts(a[3])
+                    if x0.get("k") == "ref" and x0.get("dk") == "local":
+                        d0 = p.value_of(x0, before=None)
+                        if isinstance(d0, dict) and d0 is not x0:
+                            patoms += [c for c in facts.conjuncts(d0, a[2], f) if c[0] == "cmp"]
+                        patoms += [c for c in facts.conjuncts(a[3], a[2], f)[1:] if c[0] == "cmp"]
+            lits = [literal(a[2], a[4], a[5]) for a in patoms if a[0] == "cmp" and a[2] in ("==", "!=")]
             lits = [x for x in lits if x is not None]
             nlit += len(lits)
             mism = [x for x in lits if not x[1]]
